@@ -293,7 +293,14 @@ def gen_case_c02(seed: int, s: int, w: int, tier: str) -> dict:
                     ev.append([gi, steps])
             rnd["evolve"] = ev
         rounds.append(rnd)
-    pops = _order_pops(rng, [{"name": "seq", "policy": "seq"}, _pop_inter(rng, "inter", tier)])
+    pops = [{"name": "seq", "policy": "seq"}, _pop_inter(rng, "inter", tier)]
+    if rng.random() < 0.5:
+        # interleaved + aborts: the aborted call has no outcome to judge; every other call in the population still
+        # must give its verdict, and whatever the interrupted computation left behind must not change it
+        ab = _pop_inter(rng, "abort", tier)
+        ab["n_aborts"] = 2
+        pops.append(ab)
+    pops = _order_pops(rng, pops)
     rng_w = random.Random(f"{seed}:C02:{s}:w{w}")
     return {
         "prop": "C02",
